@@ -79,16 +79,23 @@ CLAIMED = {
              "Join<None|FirstFail>; TLC checks exactly-once output, the aggregate in input order for every completion "
              "order, 'not before the last input' / 'as soon as the first failure', first-winner real-time constraints and "
              "release-exactly-once exhaustively for n = 2 (n = 3 thorough); recorded executions of WhenAll / Join (static and "
-             "dynamic forms) are validated against it with logical-to-address binding inferred by TLC.",
-        note=CONC_NOTE + "; unique inputs", design="7/C09",
-        technique="TLA+ spec + TLC model checking; schedule enumeration on the code with TLC trace validation"),
+             "dynamic forms) are validated against it with logical-to-address binding inferred by TLC. WhenSeq.tla is a "
+             "reference interpreter over sequential completion histories (vector, tuple and Join forms x policy x outcome "
+             "pattern x completion order x inputs already complete at set-up x static / dynamic x unique / shared / mixed "
+             "inputs): TLC prints the prescribed output and every history is executed on the real API.",
+        note=CONC_NOTE + "; concurrent part: unique inputs; sequential histories: n = 2 (quick), n <= 3 (thorough)", design="7/C09",
+        technique="TLA+ spec + TLC model checking; schedule enumeration on the code with TLC trace validation; "
+                  "TLC-enumerated histories replayed on the code"),
     "C10": dict(
         text="When.tla, strategies Any<None> (_done flag), Any<FirstFail> (3-state word + saved error published by the "
              "destructor) and Any<LastFail> (2*remaining|done parity word): TLC checks exactly-once output, the winner per "
              "policy incl. real-time first/last constraints and release-exactly-once for all outcome patterns and "
-             "interleavings (n = 2, n = 3 thorough); recorded executions of WhenAny are validated against it.",
-        note=CONC_NOTE + "; unique inputs", design="7/C10",
-        technique="TLA+ spec + TLC model checking; schedule enumeration on the code with TLC trace validation"),
+             "interleavings (n = 2, n = 3 thorough); recorded executions of WhenAny are validated against it; WhenSeq.tla "
+             "enumerates the sequential completion histories of WhenAny (policy x outcomes x order x readiness at set-up x "
+             "input kind) with the prescribed winner, executed on the real API.",
+        note=CONC_NOTE + "; concurrent part: unique inputs", design="7/C10",
+        technique="TLA+ spec + TLC model checking; schedule enumeration on the code with TLC trace validation; "
+                  "TLC-enumerated histories replayed on the code"),
     "C11": dict(
         text="Wait.tla models WaitRange (registration, SubEqual of the already-ready futures, timed and untimed event wait, "
              "relaxed Reset per future, SubEqual(reset_count), final wait) and the producers' side at yaclib_std-operation "
@@ -238,7 +245,7 @@ def main():
 
 
 HOOK_COMMITS = ["286d692", "d1e7f53", "baaa718"]
-FIX_COMMITS = ["8086256", "48cc44a", "6c036e9", "8faf037", "f30eead", "d8002b9", "fc2e11e", "6ed24f0", "79981a2"]
+FIX_COMMITS = ["8086256", "48cc44a", "6c036e9", "8faf037", "f30eead", "d8002b9", "fc2e11e", "6ed24f0", "79981a2", "38254af"]
 
 if __name__ == "__main__":
     main()
